@@ -2111,47 +2111,13 @@ impl Ord for OwnedTerm {
                     }
                     Ordering::Equal
                 }),
-                (OwnedTerm::Nil, OwnedTerm::Nil) => Ordering::Equal,
-                (OwnedTerm::List(a), OwnedTerm::List(b)) => {
-                    for (x, y) in a.iter().zip(b.iter()) {
-                        match x.cmp(y) {
-                            Ordering::Equal => continue,
-                            other => return other,
-                        }
+                // [] < non-empty lists; proper and improper lists compare element by element and
+                // then by what is left of each: the tail, or the remaining elements
+                (a, b) if list_parts(a).is_some() && list_parts(b).is_some() => {
+                    match (list_parts(a), list_parts(b)) {
+                        (Some((ae, at)), Some((be, bt))) => compare_list_like(ae, at, be, bt),
+                        _ => Ordering::Equal,
                     }
-                    a.len().cmp(&b.len())
-                }
-                (OwnedTerm::List(a), OwnedTerm::Nil) => {
-                    if a.is_empty() {
-                        Ordering::Equal
-                    } else {
-                        Ordering::Greater
-                    }
-                }
-                (OwnedTerm::Nil, OwnedTerm::List(b)) => {
-                    if b.is_empty() {
-                        Ordering::Equal
-                    } else {
-                        Ordering::Less
-                    }
-                }
-                (
-                    OwnedTerm::ImproperList {
-                        elements: a,
-                        tail: ta,
-                    },
-                    OwnedTerm::ImproperList {
-                        elements: b,
-                        tail: tb,
-                    },
-                ) => {
-                    for (x, y) in a.iter().zip(b.iter()) {
-                        match x.cmp(y) {
-                            Ordering::Equal => continue,
-                            other => return other,
-                        }
-                    }
-                    a.len().cmp(&b.len()).then_with(|| ta.cmp(tb))
                 }
                 (OwnedTerm::Binary(a), OwnedTerm::Binary(b)) => a.cmp(b),
                 (OwnedTerm::String(a), OwnedTerm::String(b)) => a.cmp(b),
@@ -2677,6 +2643,64 @@ fn compare_magnitude_with_float(digits: &[u8], f: f64) -> Ordering {
 
 fn compare_float_bigint(f: f64, big: &BigInt) -> Ordering {
     compare_bigint_float(big, f).reverse()
+}
+
+/// Elements and tail of a list-rank term; proper lists and `[]` have no tail.
+fn list_parts(t: &OwnedTerm) -> Option<(&[OwnedTerm], Option<&OwnedTerm>)> {
+    match t {
+        OwnedTerm::Nil => Some((&[], None)),
+        OwnedTerm::List(elements) => Some((elements, None)),
+        OwnedTerm::ImproperList { elements, tail } => Some((elements, Some(tail))),
+        _ => None,
+    }
+}
+
+fn compare_list_like(
+    a: &[OwnedTerm],
+    a_tail: Option<&OwnedTerm>,
+    b: &[OwnedTerm],
+    b_tail: Option<&OwnedTerm>,
+) -> Ordering {
+    for (x, y) in a.iter().zip(b.iter()) {
+        match x.cmp(y) {
+            Ordering::Equal => continue,
+            other => return other,
+        }
+    }
+    match a.len().cmp(&b.len()) {
+        Ordering::Equal => match (a_tail, b_tail) {
+            (None, None) => Ordering::Equal,
+            (None, Some(t)) => OwnedTerm::Nil.cmp(t),
+            (Some(t), None) => t.cmp(&OwnedTerm::Nil),
+            (Some(x), Some(y)) => x.cmp(y),
+        },
+        Ordering::Less => compare_tail_with_rest(a_tail, &b[a.len()..], b_tail),
+        Ordering::Greater => compare_tail_with_rest(b_tail, &a[b.len()..], a_tail).reverse(),
+    }
+}
+
+/// One list ran out of elements: compares its tail (`None` = `[]`) with the non-empty
+/// remainder of the other list.
+fn compare_tail_with_rest(
+    tail: Option<&OwnedTerm>,
+    rest: &[OwnedTerm],
+    rest_tail: Option<&OwnedTerm>,
+) -> Ordering {
+    match tail {
+        None => Ordering::Less,
+        Some(t) => match list_parts(t) {
+            Some((elements, inner_tail)) => {
+                compare_list_like(elements, inner_tail, rest, rest_tail)
+            }
+            None => {
+                if term_type_order(t) < term_type_order(&OwnedTerm::Nil) {
+                    Ordering::Less
+                } else {
+                    Ordering::Greater
+                }
+            }
+        },
+    }
 }
 
 fn compare_term_lists(a: &[OwnedTerm], b: &[OwnedTerm]) -> Ordering {
